@@ -92,6 +92,21 @@ def configs(tier):
                                       put_faults=(), die=(-9,),
                                       die_idle=False),
                         depth=d, max_states=40000 if not T else 400000))
+    # a result callback that raises an exception the caller asked to have
+    # propagated; then the worker leaves (clean exit 0, or killed) between
+    # jobs -- and a worker that exits with status 0 in the middle of a job
+    out.append(dict(name='apply:raising-callback', procs=1,
+                    jobs=[dict(ap_ok, cb_raises=True), ap_ok], pool=pool,
+                    alphabet=dict(A, die=(-9, 0), die_idle=True,
+                                  discard=False, terminate_job=False,
+                                  close=False, put_faults=(), max_adv=3),
+                    depth=d, max_states=40000 if not T else 400000))
+    out.append(dict(name='apply:exit-status-0', procs=1, jobs=[ap_ok, ap_ok],
+                    pool=pool,
+                    alphabet=dict(A, die=(0,), discard=False,
+                                  terminate_job=False, close=False,
+                                  put_faults=(), max_adv=3),
+                    depth=d, max_states=40000 if not T else 400000))
     # terminate_job(pid) aimed at a worker that runs a part of a map / imap
     # job (the call takes a pid; nothing ties it to apply_async)
     for jobs in ([mp], [imu], [im]):
